@@ -197,6 +197,13 @@ def statements(vt, twokey):
         for n, e in aggs:
             s = build([(e, n)], None)
             out.append((f'{sname}|{n}|none|none', s))
+        # LIMIT without ORDER BY on a grouped query: it cuts the groups that PASS the HAVING filter, in order of first appearance
+        if sname in ('explicit', 'hidden', 'km'):
+            for hn, h in having_menu(vt):
+                for limit in (1, 2):
+                    s = build(allaggs[:2], h)
+                    s = A.Select(s.targets, s.from_clause, None, s.group_by, None, None, limit, None)
+                    out.append((f'{sname}|all|none|{hn}+limit{limit}', s))
     return out
 
 
@@ -270,6 +277,10 @@ def differential(conn, cols, rows, vt, acc, twokey):
         acc.violation('diff:ungrouped-rows', f'ungrouped aggregate returned {u!r}', {'kind': 'diff', 'vt': vt, 'twokey': twokey, 'rows': jsonable(rows)})
         return
     for i in range(len(aggs)):
+        if u[0][i] is None or any(r[i] is None for r in g):
+            acc.violation('diff:null-count-or-sum', f'rows {rows!r}: count / sum is NULL: group-wise {[r[i] for r in g]!r}, ungrouped {u[0][i]!r} (count of nothing and sum of nothing are 0)',
+                          {'kind': 'diff', 'vt': vt, 'twokey': twokey, 'rows': jsonable(rows)})
+            continue
         if sum(r[i] for r in g) != u[0][i]:
             acc.violation('diff:sum-of-groups', f'rows {rows!r}: group-wise {[r[i] for r in g]!r} does not add up to {u[0][i]!r}',
                           {'kind': 'diff', 'vt': vt, 'twokey': twokey, 'rows': jsonable(rows)})
